@@ -29,6 +29,7 @@ cmdm = re.search(r'(cargo test[^\n]*)', open(demo).read()[:600])
 democmd = cmdm.group(1).strip().rstrip('`).,;').strip() if cmdm else None
 if democmd is None:
     democmd = 'cargo test -p minicbor-tests --features std --test %s --offline' % os.path.basename(place)[:-3]
+democmd = re.split(r'\s{2,}|\s\(|\s#', democmd)[0].strip()
 if '--offline' not in democmd:
     democmd += ' --offline'
 res = {'name': name, 'place': place, 'democmd': democmd}
